@@ -454,10 +454,10 @@ Definition write_add (x0 : ctx) (w0 : world) : res bool * ctx * world :=
       let '(rb, xb, wb) := buffer_frame xa msg w0 in
       match rb with
       | RErr (EWriteBufferFull f') => (ROk false, set_additional xb f', wb)
-      | RErr e => (RErr e, xb, wb)
+      | RErr e => (RErr e, set_unflushed xb true, wb)
       | RPanic s => (RPanic s, xb, wb)
       | ROutOfFuel => (ROutOfFuel, xb, wb)
-      | ROk _ => (ROk true, xb, wb)
+      | ROk _ => (ROk true, set_unflushed xb true, wb)
       end
   | None => (ROk (x_unflushed x0), x0, w0)
   end.
